@@ -14,8 +14,9 @@ from vtlengine.ViralPropagation import ViralPropagationRule
 _AGG_BINARY: Dict[str, Callable[[str, str], str]] = {
     "min": lambda a, b: f"LEAST({a}, {b})",
     "max": lambda a, b: f"GREATEST({a}, {b})",
-    "sum": lambda a, b: f"({a} + {b})",
-    "avg": lambda a, b: f"(({a} + {b}) / 2.0)",
+    # NULL operands are skipped, as LEAST/GREATEST and the group aggregates (SUM/AVG) do.
+    "sum": lambda a, b: f"COALESCE({a} + {b}, {a}, {b})",
+    "avg": lambda a, b: f"COALESCE(({a} + {b}) / 2.0, {a}, {b})",
 }
 # Group (N-operand) native aggregates.
 _AGG_GROUP: Dict[str, str] = {"min": "MIN", "max": "MAX", "sum": "SUM", "avg": "AVG"}
